@@ -117,6 +117,29 @@ layout_checks(void)
                 DECLARE_ALIGNED(uint8_t d[256], 64);
                 uint8_t r[256];
                 static const int KL[3] = { 16, 24, 32 };
+                for (int q = 0; q < 3; q++) { /* GCM_PRECOMP on already expanded keys = GCM_PRE from the raw key */
+                        static struct gcm_key_data g1 __attribute__((aligned(64))), g2 __attribute__((aligned(64)));
+                        DECLARE_ALIGNED(uint8_t dd[256], 64);
+                        memset(&g1, 0, sizeof g1);
+                        memset(&g2, 0, sizeof g2);
+                        if (q == 0) {
+                                IMB_AES128_GCM_PRE(m, raw, &g1);
+                                IMB_AES_KEYEXP_128(m, raw, g2.expanded_keys, dd);
+                                IMB_AES128_GCM_PRECOMP(m, &g2);
+                        } else if (q == 1) {
+                                IMB_AES192_GCM_PRE(m, raw, &g1);
+                                IMB_AES_KEYEXP_192(m, raw, g2.expanded_keys, dd);
+                                IMB_AES192_GCM_PRECOMP(m, &g2);
+                        } else {
+                                IMB_AES256_GCM_PRE(m, raw, &g1);
+                                IMB_AES_KEYEXP_256(m, raw, g2.expanded_keys, dd);
+                                IMB_AES256_GCM_PRECOMP(m, &g2);
+                        }
+                        n_eval++;
+                        if (memcmp(&g1, &g2, sizeof g1))
+                                viol(q == 0 ? "gcm128-precomp" : q == 1 ? "gcm192-precomp" : "gcm256-precomp", "key-data",
+                                     "GCM_PRECOMP over expanded keys gives other key data than GCM_PRE from the raw key", KEYIDS[ki], 0);
+                }
                 for (int q = 0; q < 3; q++) {
                         memset(e, 0xEE, sizeof e);
                         memset(d, 0xDD, sizeof d);
